@@ -985,6 +985,81 @@ func (g *gen) lexValid() []string {
 		g.r.PickS("", "prefix: /a-b/c\n", "group: a_1\n"), d, sep, g.ident(), g.ident(), g.ident())}
 }
 
+
+// ---------------------------------------------------------------- round 5: the statements AST.Format drops, at every position
+
+// dropProgram: a short program in which every statement is, with probability 1/2, one that formats to nothing
+// (`type ()`, `info ()`, `import ()`, `import ""`, an info / import group with zero strings only). AST.Format skips them
+// and, behind an import literal, looks ahead past them (index arithmetic on a.Stmts): dropped statements in front of the
+// first written one, between two import literals, between an import literal and another statement, behind the last
+// written statement, and programs in which everything is dropped.
+func (g *gen) dropProgram() []string {
+	var chunks []string
+	add := func(s, kind string) { chunks = append(chunks, s, g.n("top."+kind)) }
+	dropped := func() {
+		switch g.r.Intn(8) {
+		case 0:
+			add("type ()", "typeg")
+		case 1:
+			add("info ()", "info")
+		case 2:
+			add("import ()", "importg")
+		case 3:
+			add(`import ""`, "import")
+		case 4:
+			add("info (\n\ttitle: \"\"\n\tdesc: ``\n)", "info")
+		case 5:
+			add("import (\n\t\"\"\n\t\"\"\n)", "importg")
+		case 6:
+			add("type (\n)", "typeg")
+		default:
+			add("info(author:\"\")", "info")
+		}
+	}
+	written := func() {
+		switch g.r.Intn(9) {
+		case 0, 1, 2, 3:
+			add(`import "`+g.r.PickS("a.api", "b/c.api", "x")+`"`, "import")
+		case 4:
+			add("import (\n\t\"x.api\"\n\t\"\"\n)", "importg")
+		case 5:
+			add("type "+g.ident()+" {\n\tA int\n}", "type.struct")
+		case 6:
+			add("type (\n\t"+g.ident()+" {\n\t\tB string\n\t}\n)", "typeg")
+		case 7:
+			add("info (\n\ttitle: \"t\"\n)", "info")
+		default:
+			add("service "+g.r.PickS("foo", "user")+" {\n\t@handler h\n\tget /a\n}", "service")
+		}
+	}
+	if g.r.Chance(1, 3) {
+		add(g.syntaxStmt(), "syntax")
+	}
+	n := g.r.Range(1, 6)
+	mode := g.r.Intn(6)
+	for i := 0; i < n; i++ {
+		switch {
+		case mode == 0: // everything dropped
+			dropped()
+		case mode == 1 && i == n-1, mode == 2 && i == 0:
+			dropped()
+		case mode == 3 && i == 0:
+			add(`import "last.api"`, "import") // then only dropped ones
+		case mode == 3:
+			dropped()
+		case g.r.Bool():
+			dropped()
+		default:
+			written()
+		}
+	}
+	return g.finish(chunks)
+}
+
+// edgeSources: sources without a statement (round 5: the empty / blank / comment-only arguments of format.Source)
+var c20EdgeSources = []string{"\n", " ", "\t", "\r\n", " \n \n", "// c", "// c\n", "/* c */", "/* c */\n", "// a\n// b\n", "/* a */ /* b */\n",
+	"\n\n// c\n\n", ";", "()", "{}", "\ufeff", "\ufeffsyntax = \"v1\"\n", "syntax", "syntax =", "type", "import", "info", "service", "@server", "@server()", "@doc", "@handler"}
+
 // c20Classes: the known defect classes of the unchanged formatter (each one is a finding, see props/C20.json).
 var c20Classes = []string{"route-comment", "empty-body-comment", "inner-comment", "comment-trailing-blank", "star-slash", "ml-comment", "ctl-literal"}
 
@@ -1064,6 +1139,20 @@ func c20Gen(r *verifh.Rng) []verifh.Section {
 		} else {
 			secs = append(secs, sectionOf("lex", i, g, g.lexSoup()))
 		}
+	}
+	// round 5: dropped statements at every position (mostly comment-free: the blank-line layout is then compared exactly
+	// with the statement-level model of AST.Format); sources without any statement
+	ndrop := verifh.Scale(240, 4000)
+	for i := 0; i < ndrop; i++ {
+		g := &gen{r: r.Fork(), tiny: true}
+		if i%6 == 5 {
+			g.comments = 1
+		}
+		secs = append(secs, sectionOf("valid", i, g, g.dropProgram()))
+	}
+	for i, e := range c20EdgeSources {
+		g := &gen{r: r.Fork(), tricky: true}
+		secs = append(secs, sectionOf("edge", i, g, []string{e}))
 	}
 	// every position x every comment form, in isolation
 	secs = append(secs, c20SweepSections(r.Fork(), verifh.Scale(2, 8), "sweep")...)
